@@ -469,7 +469,7 @@ Definition lop_of (o : lcase) : option lop :=
   | 5 => Some (LDie (N.to_nat a))
   | 6 => Some LMgrDie
   | 7 => Some (LRemoteClose c)
-  | 9 => Some (LRace a c)
+  | 9 => Some (LRace a (if b =? 0 then 12 else b) c)
   | _ => None
   end.
 
@@ -522,7 +522,11 @@ Definition loop_trace (n : nat) (fbmask dead0 : N) (ops : list lcase) : list N :
 Definition p_lop (hold : bool) : parser lcase :=
   let* op := pN in let* a := pN in let* b := pN in let* f := pN in let* c := pN in
   if (((1 <=? op) && (op <=? 7)) || (op =? 9)) &&
-     (if (op =? 1) || (op =? 2) then if hold then negb (b =? 3) else negb (b =? 4) else true)
+     (if (op =? 1) || (op =? 2) then if hold then negb (b =? 3) else negb (b =? 4) else true) &&
+     (* races: an inbound substream only together with "every handle dropped" (else it would be served
+        while the connection ends: the notes would depend on the schedule); with pending negotiations
+        possible (hold cases) only that combination *)
+     (if op =? 9 then (b <? 16) && (if hold then b =? 0 else negb (N.testbit b 3) || N.testbit b 2) else true)
   then pret (op, (a, (b, (f, c)))) else pfail.
 
 Definition decode_loop (l : list N) : option (nat * (N * (N * list lcase))) :=
@@ -801,13 +805,16 @@ Definition lstep_ok (n : nat) (tbl : list Names.proto) (o : ost) (c : lcase) (r 
   let al1 := if (op =? 5) && (ai <? n)%nat then set_nth ai false (o_alive o) else o_alive o in
   let mgr1 := if op =? 6 then false else o_mgr o in
   let h1 := if (op =? 4) && (ai <? n)%nat then set_nth ai false (o_handle o)
-            else if (op =? 9) && (r_rc r =? 0) then map (fun _ => false) (o_handle o) else o_handle o in
+            else if (op =? 9) && (r_rc r =? 0) && N.testbit (if b =? 0 then 12 else b) 2
+                 then map (fun _ => false) (o_handle o) else o_handle o in
   let ends := negb (r_state r =? 0) && was_running in
   (* a negotiation the remote never answers keeps a permit: the connection stays open for it *)
   let nopend := (o_pend o =? 0)%nat in
   let pend1 := if ((op =? 1) || (op =? 2)) && (r_rc r =? 0) && (b =? 4) then S (o_pend o) else o_pend o in
+  let mask := if b =? 0 then 12 else b in
   let cause :=
-    ((op =? 3) && (r_rc r =? 0)) || ((op =? 7) && (r_rc r =? 0)) || ((op =? 9) && (r_rc r =? 0) && nopend) ||
+    ((op =? 3) && (r_rc r =? 0)) || ((op =? 7) && (r_rc r =? 0)) ||
+    ((op =? 9) && (r_rc r =? 0) && match race_arms (o_handle o) (o_pend o) mask with [] => false | _ => true end) ||
     ((op =? 4) && negb (existsb (fun x => x) h1) && nopend) in
   let kk : N := if b =? 0 then 4 else 5 in
   let ok :=
